@@ -23,12 +23,15 @@ from ..gen import gen_c02
 
 LEVEL = 'translation_validation'
 LEVEL_TEXT = ('The writer (`_smiles`: start choice, BFS distances, DFS with cycle detection, flattening, closure-number heap with '
-              'delayed release, atom/bond/closure formatting, CXSMILES radical block) is an executable Lean model compared exactly '
-              'with the real code on every style; the parts of "write then read gives the same molecule" that are pure logic '
-              '(lexical unambiguity, closure-number discipline, parenthesis structure, connection semantics of the flattened tree, '
-              'injectivity as a corollary) are universally quantified theorems about that model. The DFS itself and the stereo marks '
-              'are not proved correct for all graphs: their results are certified run by run by Lean-executed checkers and by '
-              're-reading the text with both the reader model of C03 and the real reader, judged under the written atom order.')
+              'delayed release, atom/bond/closure formatting incl. chirality and cis/trans marks, CXSMILES radical block) is an '
+              'executable Lean model compared exactly with the real code on every style; the parts of "write then read gives the '
+              'same molecule" that are pure logic are universally quantified theorems about that model: the text lexes back to the '
+              'emitted tokens, the reader raises no error on it, its chain bonds are the DFS tree bonds, its ring-closure bonds are '
+              'the two ends of each DFS cycle (number reuse never mispairs), parentheses balance, the allocator fails exactly when '
+              'more than 99 numbers are needed at once, and injectivity follows from losslessness. That the DFS covers every bond '
+              'once, and everything about stereo configuration, is not proved for all graphs: it is certified run by run by '
+              'Lean-executed checkers and by re-reading the text with the reader model of C03 (Lean judge incl. stereo) and with '
+              'the real reader (Python judge under the written atom order, no canonicaliser).')
 LEVEL_NOTE = ('Lean kernel; hand transcription Model/SmilesWriter.lean validated by exact correspondence (not derived from the Python '
               'text); atom weights, CPython set iteration orders and random draws are inputs of the model taken from the real run; '
               'reader model of C03 and translation functions of C12 (Model/Stereo.lean) imported; the stereogenic-centre tables are inputs.')
@@ -43,7 +46,7 @@ RULE = ('K case = (style, molecule in one concrete numbering/insertion order[, s
         'injectivity case = pair of non-isomorphic decorated graphs / stereoisomers with their canonical strings.')
 TRUSTED = ['hand transcription Model/SmilesWriter.lean, Model/C02RoundTrip.lean (validated by this correspondence)',
            'reader model of C03 (Model/C03Tokenize, C03Parser, C03Front), validated by the C03 check',
-           'gen_c02 translator (AST patterns of charge_str, organic_set, heap range, _format_closure)',
+           'gen_c02 translator (module tables read from the imported module, heap initialiser evaluated from the AST, _format_closure fitted by calling it)',
            'the harness-side replication of CPython set iteration orders (same objects, same operations)',
            'Python-side isomorphism judge under the written order (harness/props/c02.py: judge)']
 ASSUMPTIONS = ['atom weights (atoms_order/_chiral_morgan) are inputs: their numbering-independence is property C01',
@@ -397,7 +400,7 @@ STEREO_EXTRA = [
     'F[C@](Cl)(Br)I', 'C[C@@](N)(O)/C=C/F', 'C[C@](F)(Cl)CC', 'F/C=C/C=C/C', 'F/C=C\\C=C/Cl', 'C1CCC/C=C\\CC1', 'C/C=C1/CCCC(F)C1',
     'F/C=C=C=C/Cl', 'CC=[C@]=CC', 'C[C@H](F)/C=C/[C@@H](Cl)Br', 'C/C(F)=C(/Cl)Br', 'F/C=C1\\CC[C@H](C)C1', 'C/C=C/C=C/C=C/C',
     'F[C@](Cl)(Br)I.C/C=C\\F', '[2H][C@](F)(Cl)Br', 'C[C@]12CC[C@H](O)CC1CC2', 'C[C@@]1(F)CC[C@](C)(Cl)CC1', 'O[C@H]1C[C@@H](O)C1',
-    'C.[C@H](F)(Cl)Br', 'CC.N[C@@H](C)C(=O)O', '[Na+].[O-][C@H](F)Cl', 'O.F/C=C/Cl.[C@H](N)(O)C', 'C[N@+](CC)(CCC)CCCC', 'C[Si@](F)(Cl)Br', 'C(/F)=C/[C@](C)(N)O', 'C1C[C@]2(CCCO2)OC1', 'N[C@](C)(F)C(=O)O', 'C/C=C(/C)\\C=C\\C',
+    'C/C1=C/C=C/CCCCCC1', 'C/C1=C\\C=C\\CCCCCC1', 'C1=C/C=C/CCCCCC/1', 'O=C1N/C=C/C=C(C)/CCCC1', 'C.[C@H](F)(Cl)Br', 'CC.N[C@@H](C)C(=O)O', '[Na+].[O-][C@H](F)Cl', 'O.F/C=C/Cl.[C@H](N)(O)C', 'C[N@+](CC)(CCC)CCCC', 'C[Si@](F)(Cl)Br', 'C(/F)=C/[C@](C)(N)O', 'C1C[C@]2(CCCO2)OC1', 'N[C@](C)(F)C(=O)O', 'C/C=C(/C)\\C=C\\C',
     'CC(C)=[C@]=C(C)F', 'F/C(Cl)=C(/Br)I',
 ]
 
@@ -561,14 +564,20 @@ def correspond(ctx):
                         ctx.dist('reread-graph-only(valence-invalid)')
                     ctx.dist('reread:' + ('iso' if not d else 'DIFF'))
                     if d:
-                        ctx.cov['disagreements_checked'] += 1
+                        if ring_diene_class(d, m):
+                            _state.setdefault('known_class', set()).add((id(m), spec, seed))
+                            ctx.dist('known-finding-cases(ring-diene)')
+                        else:
+                            ctx.cov['disagreements_checked'] += 1
                         inp = {'kind': 'roundtrip', 'mol': wire.mol_to_ints(m), 'spec': spec, 'draw_seed': seed, 'first': first, 'name': name}
                         ctx.fail(signature_of(d, m, spec), f'{name} [{spec!r}] written {text!r} re-reads with differences {d[:5]}', inp)
                 else:
                     ctx.dist('writer-raises:' + line)
                     if line != 'err crash:IndexError' or not name.startswith('hub'):
                         ctx.broke('relational', 'writer-raises', f'{name} [{spec!r}] {line}')
-                if len(ctx.cov['samples']) < 6 and nontrivial and text and len(text) < 60:
+                if len(ctx.cov['samples']) < 6 and nontrivial and text and 12 < len(text) < 70 and ('1' in text or '@' in text or '/' in text) \
+                        and spec != _state.get('last_sample_spec'):
+                    _state['last_sample_spec'] = spec
                     ctx.sample({'molecule': name, 'style': spec, 'written': text, 'order': order})
     # allocator alone
     hreqs, hexp = heap_cases(ctx)
@@ -592,7 +601,9 @@ def correspond(ctx):
                 ctx.count(('R', spec, tuple(wire.mol_to_ints(m)), seed), m.bonds_count > 0)
                 if has_stereo(m) and '!s' not in spec:
                     ctx.dist('model-reread-with-stereo-marks')
-                if not got.startswith('ok iso'):
+                if got.startswith('ok DIFF cis-trans') and (id(m), spec, seed) in _state.get('known_class', ()):
+                    ctx.dist('model-reread-agrees-with-known-finding(ring-diene)')  # the Lean judge sees the same defect
+                elif not got.startswith('ok iso'):
                     ctx.cov['disagreements_checked'] += 1
                     ctx.broke('relational', 'model-reread', f'{name}/{tag} [{spec!r}] {got}')
                     _state.setdefault('disagree', []).append((m, spec, seed, name))
@@ -606,7 +617,32 @@ def correspond(ctx):
 _state = {}
 
 
+def ring_diene_class(diffs, mol):
+    """known finding C02/ring-diene-cis-trans: every difference is the configuration of a ring double bond one of whose
+    ends is bonded to an end of another labelled double bond (conjugated ring diene)"""
+    if not diffs or not all(d.startswith('cis-trans@') for d in diffs):
+        return False
+    for d in diffs:
+        x, y = (int(v) for v in d.split('@')[1].split('-'))
+        try:
+            bd = mol._bonds[x][y]
+            if not bd.in_ring:
+                return False
+            conj = False
+            for e, other in ((x, y), (y, x)):
+                for z in mol._bonds[e]:
+                    if z != other and any(b.stereo is not None for b in mol._bonds[z].values()):
+                        conj = True
+            if not conj:
+                return False
+        except Exception:  # noqa
+            return False
+    return True
+
+
 def signature_of(diffs, mol, spec=''):
+    if ring_diene_class(diffs, mol):
+        return 'C02/ring-diene-cis-trans'
     if 'm' in spec and any(d.startswith('reader-raises') for d in diffs) and max(mol._atoms) > 9999:
         return 'C02/atom-map-over-9999'
     kinds = sorted({d.split('@')[0].split(':')[0] for d in diffs})
@@ -801,7 +837,8 @@ def injectivity(ctx):
             d = judge(c, text, order, '') if judgeable(c) else []
             strings.setdefault(nm, set()).add(text)
             if d:
-                ctx.cov['disagreements_checked'] += 1
+                if not ring_diene_class(d, c):
+                    ctx.cov['disagreements_checked'] += 1
                 ctx.fail(signature_of(d, c, ''), f'stereoisomer {mask} of {nm} written {text!r} re-reads with differences {d[:5]}',
                          {'kind': 'roundtrip', 'mol': wire.mol_to_ints(c), 'spec': '', 'draw_seed': 0, 'first': None})
     ctx.dist('stereoisomers-written-and-reread', n_iso)
@@ -872,6 +909,14 @@ def probe(inp):
             return True, f'writer raises: {line}'
         d = judge(m, text, order, inp.get('spec', ''))
         return bool(d), f'written {text!r}; differences after re-reading: {d[:4]}'
+    if kind == 'stereo-collision':
+        from chython import smiles
+        a, b = smiles(inp['smiles1']), smiles(inp['smiles2'])
+        la = sorted((x, y, bd.stereo) for x, y, bd in a.bonds() if bd.stereo is not None)
+        lb = sorted((x, y, bd.stereo) for x, y, bd in b.bonds() if bd.stereo is not None)
+        same_graph = sorted((x, y, int(bd)) for x, y, bd in a.bonds()) == sorted((x, y, int(bd)) for x, y, bd in b.bonds())
+        fails = same_graph and la != lb and str(a) == str(b)
+        return fails, f'{inp["smiles1"]} -> {str(a)!r}; {inp["smiles2"]} -> {str(b)!r}; labels {la} vs {lb}; a == b: {a == b}'
     if kind == 'collision':
         m1, _ = wire.ints_to_mol(inp['mol'], calc=True)
         m2, _ = wire.ints_to_mol(inp['mol2'], calc=True)
